@@ -32,7 +32,7 @@ def digits(v, w):
 
 def mk(pid, kinds, strict, source='string', perm=None, widths=None, T=60, sym_ids=False, sort_objects=False, tag='',
        mids=None, may_fail=True, rc_mid=None, sym_rc=None, rc_completed=False, merge_twice=False, ncs_ids=None,
-       same_basename=False, idlen=1, refs=None, readback=False):
+       same_basename=False, idlen=1, refs=None, readback=False, decl=None):
     """sym_ids: message IDs are symbolic digit strings of the given widths (used where no message fails:
     a failing merge formats its message ID into the error text, which realises the integer and turns
     one path into one path per value); otherwise they are the concrete ``mids``."""
@@ -50,6 +50,9 @@ def mk(pid, kinds, strict, source='string', perm=None, widths=None, T=60, sym_id
         P['rc_mid'] = rc_mid
     P['ncs_ids'] = ncs_ids
     P['readback'] = readback
+    if decl:
+        P['decl'] = decl
+        tag = (tag + '-' if tag else '') + 'strings-declare-' + decl
     if refs:
         P['refs'] = refs
     P['same_basename'] = same_basename
@@ -151,6 +154,19 @@ def cells(tier):
         for strict in (True, False):
             out.append(mk(PID, tr, strict, 'string', T=T, mids=['9', '10', '100']))
             out.append(mk(PID, tr, strict, 's3', T=T, mids=['100', '10', '9'], perm=[2, 0, 3, 1]))
+    # a message that names a story which only a LATER-numbered message brings in fails where it stands (it is not
+    # retried, re-ordered or deferred); numbered the other way round it succeeds
+    for strict in (True, False):
+        out.append(mk(PID, ('roStoryInsert', 'roStoryAppend'), strict, 'string', T=T, mids=['5', '10'], refs=['n1', 0], may_fail=False,
+                      tag='target-created-later'))
+        out.append(mk(PID, ('roStoryMove', 'roStoryAppend', 'roStoryDelete'), strict, 'file', T=T, mids=['5', '10', '20'],
+                      refs=['n1', 0, 'n1'], may_fail=False, perm=[2, 3, 0, 1], tag='target-created-later'))
+        out.append(mk(PID, ('roStoryInsert', 'roStoryAppend'), strict, 'string', T=T, mids=['10', '5'], refs=['n1', 0], may_fail=False,
+                      tag='target-created-earlier'))
+    # strings that still carry the encoding declaration of the file they came from
+    for decl in ('ISO-8859-1', 'UTF-16'):
+        out.append(mk(PID, ('roStoryReplace', 'roMetadataReplace'), True, 'string', T=T, decl=decl))
+        out.append(mk(PID, ('roStoryAppend', 'roDelete'), False, 'string', T=T, decl=decl))
     # every message type after the roDelete (each one is refused, in both modes; none is skipped)
     for kind in ALL_KINDS[:-1]:     # (a second roDelete makes the collection invalid: C11)
         for strict in (True, False):
